@@ -172,8 +172,8 @@ def iterations(p, loop=None, func=None):
     where the states map ('local'|'attr'|'start'|'file', name) -> IntV | Lin."""
     out = []
     evs = p.events
-    heads = [e for e in evs if e.kind == 'loop-head' and (loop is None or e.node is loop) and (func is None or e.func == func)]
-    backs = [e for e in evs if e.kind == 'loop-back' and (loop is None or e.node is loop) and (func is None or e.func == func)]
+    heads = [e for e in evs if e.kind == 'loop-head' and (loop is None or e.node is loop) and (func is None or e.under(func))]
+    backs = [e for e in evs if e.kind == 'loop-back' and (loop is None or e.node is loop) and (func is None or e.under(func))]
     for h in heads:
         b = next((x for x in backs if x.node is h.node and x.seq > h.seq), None)
         if b is None:
@@ -186,9 +186,9 @@ def iterations(p, loop=None, func=None):
             end[('file', f.name)] = pos
         out.append((h.seq, b.seq, start, end, h))
     its = [e for e in evs if e.kind == 'loop-iter' and 'snap' in e.data and (loop is None or e.node is loop)
-           and (func is None or e.func == func)]
+           and (func is None or e.under(func))]
     ends = [e for e in evs if e.kind == 'loop-end-snap' and (loop is None or e.node is loop)
-            and (func is None or e.func == func)]
+            and (func is None or e.under(func))]
     for i, e in enumerate(its):
         nxt = next((x for x in its[i + 1:] if x.node is e.node), None)
         if nxt is None:
